@@ -314,13 +314,13 @@ def rule_plan(m, modules):
                 if n is not None and ftype == "&'amutVec<[u32;%d]>" % n:
                     res.ok()
                 else:
-                    res.bad("T-PLAN:env:out-field", mod.where, "env field %s: %s has no matching ModelDelta vector" % (fname, ftype))
+                    res.bad("T-ENV:env:out-field", mod.where, "env field %s: %s has no matching ModelDelta vector" % (fname, ftype))
             else:
                 f = m.by_name.get(fname) or m.by_name.get(fname + "_all")
                 if f is not None and ftype == "&'aPrefixTree%d" % f.n:
                     res.ok()
                 else:
-                    res.bad("T-PLAN:env:in-field", mod.where, "env field %s: %s has no matching index field" % (fname, ftype))
+                    res.bad("T-ENV:env:in-field", mod.where, "env field %s: %s has no matching index field" % (fname, ftype))
         for rt in mod.routines:
             where = "%s:%d %s" % (m.path, rt.fn["ln"], rt.name)
             plan = RoutinePlan(rt, env_fields)
